@@ -8,14 +8,16 @@ PROP = "C04"
 TARGETS = ["NetqasmVerif.Props.C04"]
 M = "NetqasmVerif.Props.C04"
 THEOREMS = [(M, "NQ.C04." + n) for n in [
-    "fault_atomic", "fault_atomic_strict", "fault_names_line", "fault_lifts",
+    "fault_atomic", "fault_atomic_inv", "fault_atomic_reachable", "fault_atomic_interleaved",
+    "fault_atomic_strict", "fault_names_line", "fault_lifts",
     "store_undefined_faults", "load_undefined_faults", "ret_undefined_faults",
     "addm_bad_modulus_faults", "subm_bad_modulus_faults", "double_alloc_faults",
     "free_unallocated_faults", "store_past_end_faults", "load_past_end_faults", "undef_past_end_faults",
     "step_frame", "step_frame_apps", "step_frame_global", "store_cell",
     "add_spec", "sub_spec", "residue_spec", "addm_spec", "subm_spec", "residue_fits",
     "jmp_spec", "bez_spec", "bnz_spec", "beq_spec", "bne_spec", "blt_spec", "bge_spec", "nonbranch_pc",
-    "run_det", "run_fuel_mono", "runAll_frame_apps",
+    "set_overflow_faults", "lea_overflow_faults", "add_overflow_faults", "sim_never_overflows",
+    "run_iff_steps", "run_of_xsteps", "run_det", "run_fuel_mono", "runAll_frame_apps",
     "set_spec", "lea_spec", "load_spec", "undef_spec", "array_spec", "qalloc_spec", "qfree_spec",
     "meas_spec", "hw_written_fits", "ret_reg_spec", "ret_reg_copy", "ret_arr_spec_partial", "ret_arr_frozen_partial",
     "ret_arr_alias_counterexample"]]
